@@ -39,7 +39,7 @@ class TLCResult:
             self.generated, self.distinct = int(m[-1][0]), int(m[-1][1])
         self.violated = re.findall(r"Invariant (\S+) is violated", out)
         self.violated += re.findall(r"Action property (\S+) is violated", out)
-        if "Temporal properties were violated" in out:
+        if "Temporal properties were violated" in out or re.search(r"Temporal property \S+ was violated", out):
             self.violated.append("<temporal>")
         if re.search(r"Deadlock reached", out):
             self.violated.append("<deadlock>")
@@ -163,7 +163,7 @@ class Run:
                 shutil.copy(f, wd)
         with open(os.path.join(wd, "MC.cfg"), "w") as f:
             f.write(cfg)
-        jopts = ["-XX:+UseParallelGC", "-Xmx" + xmx, "-Xss64m"]
+        jopts = ["-XX:+UseParallelGC", "-XX:ParallelGCThreads=4", "-Xmx" + xmx, "-Xss64m"]
         if dfs:
             jopts.append("-Dtlc2.tool.queue.IStateQueue=StateDeque")
         cmd = ["java"] + jopts + ["-cp", JARS, "tlc2.TLC", "-metadir", os.path.join(wd, "meta"),
